@@ -599,7 +599,12 @@ func (l *lemmas) discharge(s panicSite, nilFields map[string]bool) (ok bool, tri
 				call, ok := v.(*ssa.Call)
 				return ok && calleeOf(&call.Call).Builtin == "len" && kstr(call.Call.Args[0]) == kstr(s.subject)
 			})(bo.Y) {
-				return true, false, "index is a value modulo len of the same slice, read in the same critical section"
+				// Go's % keeps the sign of the dividend: the remainder is a valid index only for an unsigned (or provably
+				// non-negative) dividend
+				if b, isBasic := bo.Type().Underlying().(*types.Basic); isBasic && b.Info()&types.IsUnsigned != 0 {
+					return true, false, "index is an unsigned value modulo len of the same slice, read in the same critical section"
+				}
+				return false, false, "index is a SIGNED value modulo len(slice): after the dividend wraps to a negative number the remainder is negative (index out of range)"
 			}
 		}
 		return false, false, "index " + vstr(idx) + " is not bounded by a recognised guard"
@@ -858,11 +863,28 @@ func (l *lemmas) nilOriginOK(s panicSite, o Origin) (bool, string) {
 		if nx, ok := x.Tuple.(*ssa.Next); ok {
 			if rng, ok := nx.Iter.(*ssa.Range); ok {
 				if f, _, isL := loadedField(rng.X); isL && (f == "gcpBalancer.scRefs" || f == "gcpBalancer.refreshingScRefs") {
+					if x.Index == 1 {
+						// the KEY (a connection) is what gets dereferenced/invoked
+						r := l.keysNonNil(f)
+						return r.ok, "key of the " + lastDot(f) + " iteration: " + r.why
+					}
 					r := l.slotsNonNil()
 					return r.ok, "element of the " + lastDot(f) + " iteration: " + r.why
 				}
 			}
-			return true, "range key/value of a collection whose elements are not pointers to dereference"
+			if !isPointerLike(x.Type()) {
+				return true, "range key/value that is not a pointer or interface"
+			}
+			if rng, ok := nx.Iter.(*ssa.Range); ok {
+				if f, _, isL := loadedField(rng.X); isL {
+					r := l.collectionNonNil(f, x.Index)
+					return r.ok, "range over " + f + ": " + r.why
+				}
+				if _, isParam := rng.X.(*ssa.Parameter); isParam {
+					return false, "range over a caller-supplied collection whose elements may be nil"
+				}
+			}
+			return false, "range key/value of a collection whose elements are not known to be non-nil"
 		}
 	case *ssa.Lookup:
 		if f, _, isL := loadedField(x.X); isL && f == "gcpBalancer.scRefs" {
@@ -1056,4 +1078,81 @@ func closeLocalOnce(p *Prog, s panicSite) (bool, string) {
 		return true, "deferred close of a local channel, registered in a block that runs only while the local is still nil and sets it: at most once per call"
 	}
 	return false, ""
+}
+
+// keysNonNil: every key ever inserted into the connection-keyed map field is a non-nil connection: the result of
+// NewSubConn on the path where its error is nil, the connection of the report being handled (a key already known to the
+// balancer), or the key of another such map.
+func (l *lemmas) keysNonNil(field string) lemmaResult {
+	return l.get("keys of "+field+" are never nil", func() lemmaResult {
+		pl := l.pl
+		p := pl.p
+		n := 0
+		for _, a := range pl.ai.ByField[field] {
+			mu, ok := a.Instr.(*ssa.MapUpdate)
+			if !ok {
+				continue
+			}
+			n++
+			for _, o := range origins(mu.Key) {
+				switch x := o.Val.(type) {
+				case *ssa.Parameter:
+					continue // a connection handed in by gRPC / by a caller that holds it
+				case *ssa.Extract:
+					call, isC := x.Tuple.(*ssa.Call)
+					if isC && x.Index == 0 && call.Call.IsInvoke() && call.Call.Method.Name() == "NewSubConn" {
+						cs := newCondSpace(a.Fn, recOf(eqAtom("created", func(v ssa.Value) bool { return isExtractOf(stripConv(v), call, 1) }, isNil)), "created")
+						if imp, _ := cs.Implies(cs.Reach(mu), cs.Atom("created")); imp && cs.Seen("created") {
+							continue
+						}
+						return lemmaResult{false, "the result of NewSubConn is used as a key of " + field + " also when NewSubConn failed (nil connection)", p.ipos(mu)}
+					}
+					if nx, isN := x.Tuple.(*ssa.Next); isN && x.Index == 1 {
+						_ = nx
+						continue // key of another connection-keyed map
+					}
+				case *ssa.UnOp:
+					if f, _, isL := loadedField(x); isL && f == "subConnRef.subConn" {
+						continue // a slot's connection (set from non-nil keys only)
+					}
+				}
+				return lemmaResult{false, fmt.Sprintf("key %s stored into %s is not known to be non-nil", o, field), p.ipos(mu)}
+			}
+		}
+		if n == 0 {
+			return lemmaResult{false, "no insertion into " + field + " found", "-"}
+		}
+		return lemmaResult{true, fmt.Sprintf("all %d insertions use a successfully created or already known connection as key", n), "-"}
+	})
+}
+
+// collectionNonNil: elements (idx 2) / keys (idx 1) of any other module collection that is ranged over and dereferenced:
+// every value stored into it is a fresh allocation, a non-nil-guarded value or a result that cannot be nil.
+func (l *lemmas) collectionNonNil(field string, idx int) lemmaResult {
+	return l.get(fmt.Sprintf("elements[%d] of %s are never nil", idx, field), func() lemmaResult {
+		pl := l.pl
+		p := pl.p
+		n := 0
+		for _, a := range pl.ai.ByField[field] {
+			var v ssa.Value
+			switch x := a.Instr.(type) {
+			case *ssa.MapUpdate:
+				v = x.Value
+				if idx == 1 {
+					v = x.Key
+				}
+			default:
+				continue
+			}
+			n++
+			if !nonNilValue(v) && len(nilOrigins(p, v, nilCapableFields(p))) > 0 {
+				return lemmaResult{false, "a possibly nil value is stored into " + field, p.ipos(a.Instr)}
+			}
+		}
+		if n == 0 {
+			// slices filled by append / composite literals: accept only when the field's element type is not pointer-like
+			return lemmaResult{false, "no map insertion into " + field + " found to justify non-nil elements", "-"}
+		}
+		return lemmaResult{true, fmt.Sprintf("all %d stores put a non-nil value there", n), "-"}
+	})
 }
